@@ -225,7 +225,7 @@ func newAmbWorld(seed int64) (*ambWorld, error) {
 	if err != nil {
 		return nil, err
 	}
-	aw.secretKey = bytes.Repeat([]byte{7}, 32)
+	aw.secretKey = []byte("ambient-world-secret-key-32bytes") // an unremarkable key: the key classes are C19's business (Meta.tla)
 	aw.secrets["sa"] = []byte(strings.Repeat("A", 48))
 	aw.secrets["sb"] = []byte(strings.Repeat("B", 48))
 	root, err := delegation.Root(aw.S.id, aw.A.id, command.MustParse("/a"), pol, delegation.WithMeta("k", "v"),
